@@ -15,11 +15,16 @@ Definition kFst2 := 8%N.
 Definition mk_child (u : N) : cnode * N :=
   (CDir u false [(kS, CDir (u + 1) false [(kN, CVar (u + 2) 0 DSplit)])], (u + 3)%N).
 
-(* kind: bit 0 = deriver, bit 1 = the two flow steps *)
+(* kind: bit 0 = deriver, bit 1 = the two flow steps, bit 2 = inert (no process at all: 'processes': {}) *)
 Definition has_drv (kind : N) : bool := N.testbit kind 0.
 Definition has_flow (kind : N) : bool := N.testbit kind 1.
+Definition is_inert (kind : N) : bool := N.testbit kind 2.
 
 Definition build (kind : N) (u : N) : cnode * N :=
+  if is_inert kind then
+    (* a compartment listed with empty processes / steps / topology: the colony's sub-schema instance only *)
+    (CDir u false [(kS, CDir (u + 1) false [(kN, CVar (u + 2) 0 DSplit)])], (u + 3)%N)
+  else
   let vars := [(kN, CVar (u + 2) 0 DSplit)]
               ++ (if has_drv kind then [(kD, CVar (u + 3) 0 DSet)] else [])
               ++ (if has_flow kind then [(kF, CVar (u + 4) 0 DSet); (kG, CVar (u + 5) 0 DSet)] else []) in
